@@ -151,7 +151,8 @@ AREAS["C04"] = {
                   "syscalls and checks that the reopened file equals the model after exactly the acknowledged requests or one more, has consistent hashes, one meta row, "
                   "the same root id and signing key, and that a second reopen changes nothing (also for kills during first-time initialisation)",
     "level_note": "partial: SQLite's WAL recovery, page-level I/O and fsync behaviour are assumed (the transaction machine) and only sampled by fault injection; first-time "
-                  "initialisation is covered by the harness only (a kill between root creation and admin creation leaves an instance without the default admin: noted, not a violation of the statement)",
+                  "initialisation is modelled as a sequence of transactions (Store/Init.v) and C04_init_one_meta, C04_init_keeps_root_and_key, C04_init_root_found are proved for every crash point and all ids "
+                  "(a kill between root creation and admin creation leaves an instance without the default admin: noted, not a violation of the statement)",
 }
 
 AREAS["C12"] = {'area': 'c12',
